@@ -664,7 +664,17 @@ def verify_unit(target, enum_assign, opts=None):
         elif sig == RAISE:
             ename = val.name()
             env = st2.entry
-            if ename in ct.raises:
+            if ename == 'CalleeException' and ct.exc_ensures:
+                # an exception escaping from a modelled free variable (it may raise anything): the clauses
+                # exc_ensures_* must hold in the state the function leaves behind
+                env2 = dict(env)
+                for pn, (obj, attr) in ct.state.items():
+                    env2[pn + '_out'] = st2.heap.get((obj, attr), UnkV('field %s.%s' % (obj, attr)))
+                p = Pure(eng, st2, env2, ct.func.__globals__, True, TRUE, lineno)
+                for name, fn, props in ct.exc_ensures:
+                    e = p.inline_spec(fn, [], {}, extra_env=pick_env(fn, env2))
+                    eng.oblig(st2.fork(), 'ensures', 'on-exception:%s' % name, p2truthy(p, e), lineno, props=props)
+            elif ename in ct.raises:
                 p = Pure(eng, st2, dict(env), ct.func.__globals__, True, TRUE, lineno)
                 fn = ct.raises[ename]
                 c = p.truthy(p.inline_spec(fn, [], {}, extra_env=pick_env(fn, env)))
